@@ -32,7 +32,8 @@ theorem lincode_commit_is_merkle_root (pp : Params F D) (coeffs : List F) (c : C
     split at h
     · cases h
     · cases h
-      unfold computeMatrices at hcm
+      replace hcm := (computeMatrices_ok pp coeffs _ hcm).2
+      unfold computeMatricesCore at hcm
       simp only at hcm
       cases her : encodeRows pp.enc (coeffMat pp.dims coeffs).rows with
       | error e => rw [her] at hcm; cases hcm
@@ -69,7 +70,7 @@ polynomials with the same coefficient vector — and the empty vector and `[0]` 
 commitment and state. -/
 theorem lincode_commit_empty_eq_zero (pp : Params F D) :
     commit pp ([] : List F) = commit pp [0] := by
-  unfold commit computeMatrices coeffMat coeffsOrZero
+  unfold commit computeMatrices computeMatricesCore fitsDims coeffMat coeffsOrZero
   rfl
 
 /-- `commit` on a list is `commit` on each polynomial, in order, with nothing shared -/
@@ -118,7 +119,7 @@ theorem lincode_roots_distinct (pp : Params F D) (ext ext' : Mat F)
 
 /-! non-vacuity: the toy commitment exists, equals the closed form, and two polynomials get
 different roots -/
-example : ∃ cs, commit (toyPP true) [1, 2, 3] = .ok cs := ⟨_, commit_eq _ _ toyE 4 (toy_encodes _ _)⟩
+example : ∃ cs, commit (toyPP true) [1, 2, 3] = .ok cs := ⟨_, commit_eq _ _ toyE 4 (toy_encodes _ _ (by decide))⟩
 example : (match commit (toyPP true) [1, 2, 3], commit (toyPP true) [1, 2, 4] with
     | .ok (c, _), .ok (c', _) => decide (c.root ≠ c'.root)
     | _, _ => false) = true := by decide
